@@ -21,7 +21,7 @@ ASSUMPTIONS = [
     "A-REAL; V2 (counts are non-negative whole numbers, previous result + 1 >= 1)",
     "A-QR: the solver returns finite coefficients; predict is linear in the design-matrix columns",
     "Featurizer is used through its contract (row- and order-preserving design matrices) except in the no-covariate configuration, where its real body is executed",
-    "A-SIGMA (gaussian): the bootstrapped scale returned by GaussianModel.fit is finite; finiteness of gaussian bounds is not proved",
+    "A-SIGMA (gaussian): the bootstrapped scale returned by math_utils.boot_sigma is finite and positive; gaussian aggregate floors / finiteness: units gaussian.aggregate_intervals.* (contracts/C15.py)",
 ]
 
 
@@ -287,3 +287,7 @@ def two_estimands(h):
         want_l = z3.If((lraw.t - c) * last + last >= rs, (lraw.t - c) * last + last, rs)
         want_u = z3.If((uraw.t + c) * last + last >= rs, (uraw.t + c) * last + last, rs)
         h.ensures(f"own_correction.{e}", z3.Implies(rows, z3.And(res.lower.t == theory_np.RND(want_l, z3.IntVal(0)), res.upper.t == theory_np.RND(want_u, z3.IntVal(0)))))
+
+
+# the gaussian aggregate units live in C15 (which imports this module): loading it registers them under C03 / C02 as well
+import contracts.C15  # noqa: E402,F401
